@@ -756,7 +756,23 @@ func runC17(c *CaseCtx) *CaseResult {
 			b := int(th.Target) / est
 			lengths = append(lengths, b-2, b-1, b, b+1, int(th.Target)/4-1, int(th.Target)/4, int(th.Target)/4+1, int(th.Target)/3, int(th.Target)/3+1)
 		}
+		// lengths whose ACTUAL encoded size lands exactly on / next to the target and maximum slab sizes, for uniformly
+		// small (3-byte) and uniformly large (4-byte) byte storables: the fast path must never build an oversized slab
+		type sized struct {
+			L     int
+			class int // 0 mixed, 1 all small (<=23), 2 all large (>23)
+		}
+		var plan []sized
 		for _, L := range lengths {
+			plan = append(plan, sized{L, 0})
+		}
+		for _, edge := range []int{int(th.Target), int(th.Max)} {
+			for d := -2; d <= 3; d++ {
+				plan = append(plan, sized{(edge + d - szArrayRootDataPrefix) / 3, 1}, sized{(edge + d - szArrayRootDataPrefix) / 4, 2})
+			}
+		}
+		for _, pl := range plan {
+			L := pl.L
 			if L < 0 {
 				continue
 			}
@@ -764,9 +780,14 @@ func runC17(c *CaseCtx) *CaseResult {
 				data := make([]byte, L)
 				small := r.Intn(3) == 0
 				for i := range data {
-					if small {
+					switch {
+					case pl.class == 1:
 						data[i] = byte(r.Intn(24))
-					} else {
+					case pl.class == 2:
+						data[i] = byte(24 + r.Intn(232))
+					case small:
+						data[i] = byte(r.Intn(24))
+					default:
 						data[i] = byte(r.Intn(256))
 					}
 				}
